@@ -154,6 +154,7 @@ def cfgs_replication(tier, rng):
         out.append(cfgmod.make(n=pick(rng, [2, 3, 4, 5]), head=k % 2, manual=(k // 2) % 2, limit=pick(rng, [1, 2, 4]), payload=pick(rng, [0, 2]),
                                plans=0, history=1, serial=0, log="off"))
     out.append(cfgmod.make(n=3, head=1, manual=1, limit=2, cap=2, payload=2, plans=1, history=1, serial=1, log="off", inj_state=2, order=1))   # plans and serialization compiled in, injected bases, options reversed
+    out.append(cfgmod.make(n=4, head=1, manual=0, limit=2, cap=3, payload=3, plans=1, history=1, serial=0, log="off"))      # the history also records what a plan requested: tasks with and without payloads, slots reused
     return out
 
 P_REPL = P_REQ.with_(w_ops=dict(replayTransition=6, replayEnter=2, exit_enter=3, second_instance=2, copy=1))
@@ -177,6 +178,10 @@ def cfgs_inject(tier, rng):
     # exactly one injection and classes that define only some (or none) of the callbacks: the inherited ones must run once, not twice
     out.append(cfgmod.make(n=2, head=1, manual=0, limit=2, cap=2, inj_root=1, inj_state=1, plans=0, log="off", defroot=0, defstate=0))
     out.append(cfgmod.make(n=3, head=1, manual=1, limit=2, cap=2, inj_root=1, inj_state=1, plans=0, log="off", defroot=0x0aaa, defstate=0x0555))
+    # injected bases whose callbacks are virtual and overridden by the state (all / some / none of them): delivery is to the base itself, never to the final overrider
+    out.append(cfgmod.make(n=2, head=1, manual=0, limit=2, cap=2, inj_root=2, inj_state=2, plans=1, log="off", virt=1))
+    out.append(cfgmod.make(n=3, head=1, manual=1, limit=2, cap=2, inj_root=1, inj_state=1, plans=0, log="off", defroot=0x0aaa, defstate=0x0555, virt=1))
+    out.append(cfgmod.make(n=2, head=1, manual=0, limit=2, cap=2, inj_root=1, inj_state=1, plans=0, log="on", defroot=0, defstate=0, virt=1))
     return out
 
 P_INJ = BASE.with_(w_ops=dict(update=8, react=6, query=3, change=5, immChange=8, exit_enter=3), p_same_dest=0.4,
@@ -261,6 +266,27 @@ def plan_templates(tier):
                         "template:failure-and-request-from-the-same-callback"))
     return out
 
+# ---- a plan, then load(): the loaded machine starts without a plan - nothing of the plan that load() wiped may come back when a new, shorter one is made
+def plan_load_templates(tier):
+    out = []
+    for (n, pay, manual, cap) in ((3, 0, 0, 4), (5, 2, 1, 3), (9, 0, 0, 6)) if tier == "quick" else ((3, 0, 0, 4), (5, 2, 1, 3), (9, 0, 0, 6), (17, 0, 1, 5), (4, 2, 0, 8)):
+        c = cfgmod.make(n=n, head=1, manual=manual, limit=2, cap=cap, payload=pay, plans=1, serial=1, history=1, log="on")
+        pre = [cfgmod.cfg_line(c), "op construct 0 1 00"] + (["op enter 0"] if manual else [])
+        donor = ["op construct 1 1 00"] + (["op enter 1"] if manual else [])
+        a1, a2 = 1, n - 1
+        # (i) tasks with one origin, wiped by load(), then a single new task from that origin
+        old = ["op plan.append 0 0 %d" % a1, "op plan.append 0 0 %d" % a2, "op plan.append 0 0 0"]
+        out.append((c, "\n".join(pre + old + donor + ["op loadfrom 0 1", "op plan.append 0 0 %d" % a1, "op succeed 0 0", "op update 0", "op update 0", "op update 0"]) + "\n", "template:plan-wiped-by-load"))
+        # (ii) the same after the first task fired and its slot was reused (slot order differs from plan order)
+        if a1 != a2:
+            old2 = ["op plan.append 0 0 %d" % a1, "op plan.append 0 %d %d" % (a1, a2), "op plan.append 0 %d 0" % a2, "op succeed 0 0", "op update 0", "op plan.append 0 0 %d" % a2]
+            out.append((c, "\n".join(pre + old2 + donor + ["op loadfrom 0 1", "op plan.append 0 0 %d" % a2, "op succeed 0 0", "op update 0", "op update 0", "op succeed 0 %d" % a2, "op update 0"]) + "\n",
+                        "template:recycled-plan-wiped-by-load"))
+        # (iii) wiped by exit()/enter() or destruction instead of load()
+        if manual:
+            out.append((c, "\n".join(pre + old + ["op exit 0", "op enter 0", "op plan.append 0 0 %d" % a1, "op succeed 0 0", "op update 0", "op update 0"]) + "\n", "template:plan-wiped-by-exit-enter"))
+    return out
+
 def life_cb(l): return l.kind == "cb" and l.meth in T.LIFE
 def guard_cb(l): return l.kind == "cb" and l.meth in T.GUARD
 
@@ -268,7 +294,7 @@ SPECS = {
     "C01": MachineSpec("C01", T.p_C01, P_LIFE, cfgs_lifecycle, lambda t: 60 if t == "quick" else 400,
                        lambda ls, c: sum(1 for l in ls if life_cb(l)) >= 4),
     "C02": MachineSpec("C02", T.p_C02, lambda c: P_REQ.with_(p_pair=0.7, n_tab=(0, 4)) if c["plans"] else P_REQ, cfgs_requests, lambda t: 100 if t == "quick" else 600,
-                       lambda ls, c: has(ls, guard_cb) and has(ls, lambda l: l.kind == "did" and l.act[0].startswith("change"))),
+                       lambda ls, c: has(ls, guard_cb) and has(ls, lambda l: l.kind == "did" and l.act[0].startswith("change")), extra=plan_load_templates),
     "C03": MachineSpec("C03", T.p_C03, P_REQ, cfgs_requests, lambda t: 100 if t == "quick" else 600,
                        lambda ls, c: has(ls, lambda l: l.kind == "did" and l.act[0] == "cancel" and l.res == "ok"), extra=guard_trees),
     "C04": MachineSpec("C04", T.p_C04, P_LIMIT, cfgs_limit, lambda t: 100 if t == "quick" else 500,
@@ -280,13 +306,14 @@ SPECS = {
     "C07": MachineSpec("C07", T.p_C07, lambda c: P_PAY.with_(p_pair=0.5) if c["plans"] else P_PAY, cfgs_payloads, lambda t: 60 if t == "quick" else 300,
                        lambda ls, c: has(ls, lambda l: l.kind == "cb" and l.meth in ("enter", "reenter") and l.f.get("cur", "-")[-1:] not in ("-", ""))),
     "C08": MachineSpec("C08", T.p_C08, P_PLANS, cfgs_plans, lambda t: 80 if t == "quick" else 400,
-                       lambda ls, c: has(ls, lambda l: l.kind == "log" and l.what == "transition" and l.args[0] != "255"), extra=plan_templates),
+                       lambda ls, c: has(ls, lambda l: l.kind == "log" and l.what == "transition" and l.args[0] != "255"), extra=lambda t: plan_templates(t) + plan_load_templates(t)),
     "C09": MachineSpec("C09", T.p_C09, P_PLANS.with_(w_ops=dict(exit_enter=5, destroy_construct=2, loadfrom=1, succeed=7, fail=4), p_cond=0.4), cfgs_plans9, lambda t: 80 if t == "quick" else 400,
-                       lambda ls, c: has(ls, lambda l: l.kind == "cb" and l.meth in T.PLANCB), extra=plan_templates),
-    "C11": MachineSpec("C11", T.p_C11, P_REPL, cfgs_replication, lambda t: 80 if t == "quick" else 400,
+                       lambda ls, c: has(ls, lambda l: l.kind == "cb" and l.meth in T.PLANCB), extra=lambda t: plan_templates(t) + plan_load_templates(t)),
+    "C11": MachineSpec("C11", T.p_C11, lambda c: P_REPL.with_(w_ops=dict(plan_append=5, plan_appendWith=5, succeed=5), w_act=dict(plan_append=2, plan_appendWith=2, succeed=5), p_pair=0.4) if c["plans"] else P_REPL,
+                       cfgs_replication, lambda t: 80 if t == "quick" else 400,
                        lambda ls, c: has(ls, lambda l: l.kind == "obs" and l.f.get("prev", "-") != "-")),
     "C12": MachineSpec("C12", T.p_C12, P_SERIAL, cfgs_serial, lambda t: 40 if t == "quick" else 200,
-                       lambda ls, c: has(ls, lambda l: l.kind == "api" and l.op == "loadfrom")),
+                       lambda ls, c: has(ls, lambda l: l.kind == "api" and l.op == "loadfrom"), extra=plan_load_templates),
     "C15": MachineSpec("C15", T.p_C15, P_INJ, cfgs_inject, lambda t: 50 if t == "quick" else 250,
                        lambda ls, c: has(ls, lambda l: l.kind == "cb" and l.rec != "own")),
     "C16": MachineSpec("C16", T.p_C16, P_LOG, cfgs_logging, lambda t: 50 if t == "quick" else 250,
@@ -298,7 +325,7 @@ SPEC_C10_MACHINE = MachineSpec("C10", T.p_C10, P_PLANS.with_(w_ops=dict(plan_app
                                                                w_act=dict(plan_append=8, plan_removeAt=3, plan_clear=2, succeed=6)),
                                cfgs_plans, lambda t: 60 if t == "quick" else 300,
                                lambda ls, c: has(ls, lambda l: (l.kind == "did" and l.act[0] == "plan.append" and l.res == "full") or (l.kind == "api" and l.op == "plan.removeAt")),
-                               extra=lambda tier: plan_enumeration(tier))
+                               extra=lambda tier: plan_enumeration(tier) + plan_load_templates(tier))
 
 # ---------------------------------------------------------------------------------------------- unit-level
 from . import unitcheck, leaf
@@ -413,8 +440,15 @@ def check_C14(run):
                                          cfgmod.make(n=2, head=0, plans=1, limit=2, cap=2), cfgmod.make(n=5, head=1, inj_state=1, inj_root=1, plans=0, limit=2, history=1)],
                            lambda t: 50 if t == "quick" else 300, lambda ls, c: has(ls, lambda l: l.kind == "did" and l.act[0].startswith("change") and l.res == "ok"), monitor_ids=[])
     engine.run_machine(run, spec_req)
+    # (d) load() activates the state whose id was saved - around the state counts at which the id field of the serialized form changes width (64: 7 bits,
+    # 128: 8 bits starting at bit 1 of the buffer), the same two machines as in the C13 check
+    spec_ser = MachineSpec("C14", T.p_C14, P_SERIAL.with_(n_ops=(8, 20)),
+                           lambda t, r: [cfgmod.make(n=64, head=0, manual=1, limit=1, cap=2, plans=1, serial=1, history=0, log="off"),
+                                         cfgmod.make(n=128, head=0, manual=0, limit=1, cap=3, plans=1, serial=1, history=1, log="off", order=1)],
+                           lambda t: 25 if t == "quick" else 100, lambda ls, c: has(ls, lambda l: l.kind == "api" and l.op == "loadfrom"), monitor_ids=["C12"], odd=False)
+    engine.run_machine(run, spec_ser)
     run.violations.sort(key=lambda v: len(v.get("impl", "")))
-    return dict(rule="(c) requests made from outside and from every kind of callback, alone or together with task-status reports and plan edits by another recipient of the same phase, on machines with "
+    return dict(rule="(d) save()/load() between instances of 64- and 128-state machines: the state activated by load() is the one saved; (c) requests made from outside and from every kind of callback, alone or together with task-status reports and plan edits by another recipient of the same phase, on machines with "
                      "plans / payloads / injected bases: who receives callbacks and which state ends up active, compared with the model; (b) activation-heavy generated scripts (entry guards that redirect and veto at activation): the machine must come up in the first declared state unless a redirect survived; "
                      "(a) one machine per state count N (quick: 1..17, 31..33, 63..65 with and without head, both header variants, plus 127..129, 254, 255 once; thorough: every N in 1..255 "
                      "x head x variant); for every k < N: immediateChangeTo(k), update(), react(), query() - all twelve callback kinds; an evaluation is one (N, k) probe; distinct non-trivial = distinct (N, head, probe line)",
@@ -528,12 +562,36 @@ def refill(script, fill):
         out.append(l)
     return "\n".join(out)
 
+# behaviour that depends on a value nobody wrote (an uninitialised local, a member read before its first write) is behaviour that does not depend on the
+# history alone: plan-heavy scripts under valgrind's memcheck, which reports the first conditional jump, address or system call that depends on such a value
+VALGRIND = ("valgrind", "-q", "--error-exitcode=96", "--track-origins=no", "--leak-check=no")
+def spec_memcheck(pid, tier):
+    return MachineSpec(pid, T.p_all, P_PLANS.with_(n_ops=(6, 16), w_ops=dict(loadfrom=2, copy=2, second_instance=1, succeed=8, fail=3)),
+                       lambda t, r: [cfgmod.make(n=3, head=1, manual=0, limit=2, cap=3, payload=0, plans=1, serial=1, history=1, log="off"),
+                                     cfgmod.make(n=4, head=0, manual=1, limit=2, cap=2, payload=2, plans=1, serial=1, history=1, log="on")],
+                       lambda t: 10 if t == "quick" else 60, lambda ls, c: has(ls, lambda l: l.kind == "cb"), variants=("include",), wrapper=VALGRIND, monitor_ids=[], odd=False,
+                       extra=lambda t: [x for x in plan_templates(t) if x[0]["n"] == 3][:12])
+
 def check_C17(run):
-    facts = subprocess.run([sys.executable, os.path.join(common.VERIF, "tools", "initfacts.py")], capture_output=True, text=True)
+    # the structural facts are regenerated from the tree under test into a scratch file; if they are the committed
+    # coq/Generated/InitFacts.v the theorems of the main build apply, otherwise Proofs/ConstructProofs.v and the property file are
+    # re-checked against the regenerated facts in a scratch copy of the development (nothing under coq/ is rewritten)
+    tmp = os.path.join(common.CACHE, "initfacts.%d.v" % os.getpid()); os.makedirs(common.CACHE, exist_ok=True)
+    facts = subprocess.run([sys.executable, os.path.join(common.VERIF, "tools", "initfacts.py"), "--out", tmp], capture_output=True, text=True)
     try: run.extra["generated_facts"] = json.loads(facts.stdout.strip().split("\n")[-1])
     except Exception: run.extra["generated_facts"] = dict(error=(facts.stdout + facts.stderr)[-500:])
-    run.proof = proofs.check_property("C17", tier=run.tier)          # after regenerating Generated/InitFacts.v
+    run.proof = proofs.check_property("C17", tier=run.tier)
+    text = open(tmp).read() if os.path.exists(tmp) else ""
+    if os.path.exists(tmp): os.remove(tmp)
+    committed = open(os.path.join(common.COQ, "Generated", "InitFacts.v")).read()
+    if text != committed:
+        r = leaf.recheck_generated("Generated/InitFacts.v", text, ["Proofs/ConstructProofs.v", "Properties/Properties_C17.v"], "the facts regenerated from this tree") if text else dict(ok=False, detail="tools/initfacts.py produced nothing: " + (facts.stdout + facts.stderr)[-800:])
+        run.extra["generated_facts_differ_from_committed"] = True
+        if not r["ok"]:
+            run.proof["ok"] = False; run.proof["discharged"] = 0
+            run.proof["detail"] = (run.proof.get("detail", "") + "\n" + r["detail"]).strip()
     engine.run_machine(run, SPEC_C17)
+    engine.run_machine(run, spec_memcheck("C17", run.tier))
     # the same history over different prior memory contents must give the same trace (implementation against itself)
     cfgs = cfgs_copies(run.tier, random.Random(7)); rng = run.rng
     per = 8 if run.tier == "quick" else 40
@@ -630,6 +688,8 @@ def check_C18(run):
         for k, v in old_env.items():
             if v is None: os.environ.pop(k, None)
             else: os.environ[k] = v
+    # (1b) reading a value that was never written is undefined behaviour no sanitizer above reports: a memcheck pass (the same one as in the C17 check)
+    engine.run_machine(run, spec_memcheck("C18", tier))
     # (2) no allocation: (i) undefined symbols of an object that instantiates the whole API; (ii) allocation counters at run time
     names, masks = feature_sets(tier)
     src = os.path.join(common.HARNESS, "matrix_tu.cpp")
